@@ -271,7 +271,7 @@ pub fn run(ctx: &Ctx) -> (Stats, Report) {
 
     // E2: the speller (positive cases with leniencies, and single-component perturbations)
     for kind in KINDS {
-        let per = (if ctx.thorough { 5_000_000 } else { 320_000 }) / THREADS as u32;
+        let per = (if ctx.thorough { 30_000_000 } else { 640_000 }) / THREADS as u32;
         let s = pt_run(
             &format!("C05/speller/{}", kind.name()),
             seed,
